@@ -3,7 +3,7 @@
    The statements are spelled out in C03/Proofs.v (…_statement); they quantify
    over every mechanism oracle and permission oracle (env), every mechanism
    list on either side, every advertised list and every finite peer script. *)
-From XV Require Import lib.Bytes gen.Sasl C03.Model C03.Proofs.
+From XV Require Import lib.Bytes gen.Sasl C03.Model C03.Proofs C03.Hist C03.HistProofs.
 
 (* Initiating side. If negotiateClient returns Authn then: the mechanism used is
    the client's first preference among the advertised ones; the session read
@@ -91,3 +91,46 @@ Print Assumptions C03_client_honest_authenticates.
 Theorem C03_server_honest_authenticates : server_honest_statement.
 Proof. exact server_honest. Qed.
 Print Assumptions C03_server_honest_authenticates.
+
+(* ---- connections that share one SASL feature value (C03/Hist.v) ----
+   A history is any list of connections (initiating and receiving) using the
+   same StreamFeature value and any schedule of their Parse / Negotiate calls.
+   The decode target of Parse is the one read from sasl.go in this run. *)
+
+(* Every connection gets from Negotiate exactly the result it gets alone, with
+   the list its own receiver advertised. *)
+Theorem C03_history_sessions_independent : history_independent_statement.
+Proof. exact history_independent. Qed.
+Print Assumptions C03_history_sessions_independent.
+
+(* What Parse returned for a connection still reads as its own receiver's list
+   after any later Parse / Negotiate of any connection (heap of backing arrays). *)
+Theorem C03_history_parse_result_stable : history_data_stable_statement.
+Proof. exact history_data_stable. Qed.
+Print Assumptions C03_history_parse_result_stable.
+
+(* A mechanism that THIS connection's receiver did not offer is never used. *)
+Theorem C03_history_no_unoffered_mechanism : history_no_unoffered_statement.
+Proof. exact history_no_unoffered. Qed.
+Print Assumptions C03_history_no_unoffered_mechanism.
+
+(* Authn for a connection of a history implies the soundness clauses about that
+   connection's own list, script, mechanism Steps and permission verdicts. *)
+Theorem C03_history_authn_sound : history_authn_sound_statement.
+Proof. exact history_authn_sound. Qed.
+Print Assumptions C03_history_authn_sound.
+
+(* The hypothesis is needed: with the decode target captured by the feature
+   value and re-sliced per call, a connection offered only SCRAM-SHA-256 sends
+   <auth mechanism='PLAIN'> and is authenticated. *)
+Theorem C03_shared_parse_buffer_refuted : shared_buffer_refuted_statement.
+Proof. exact shared_buffer_refuted. Qed.
+Print Assumptions C03_shared_parse_buffer_refuted.
+
+(* Facts of the source text behind the above, regenerated on every run: the
+   decode target is declared in the call of Parse; newSASL has no variables but
+   its parameters and its closures only read them; no package-level variable or
+   parameter of sasl.go is written; both base64 decodes return their error. *)
+Theorem C03_feature_value_tables : feature_value_tables_statement.
+Proof. exact feature_value_tables. Qed.
+Print Assumptions C03_feature_value_tables.
